@@ -1447,4 +1447,5 @@ func main() {
 	handshake(run)
 	wireHandshake(run)
 	blockid(run)
+	notices(run)
 }
